@@ -57,8 +57,12 @@ def run_real(line):
     name_locks(c)
     c.reconnect_delay_set(int(a.get("min", 1)), int(a.get("max", 120)))
     pend = a.get("pend") == "1"
+    rng_q = 1 + (len(a["script"]) % 2)
     if pend:
-        c.publish("p/t", b"pending", 1)      # accepted without a connection: (re)transmitted at every accepted CONNACK
+        # accepted without a connection: (re)transmitted at every accepted CONNACK (two of them: when the write of the first
+        # fails the retransmission pass is left early, with the second still to do)
+        c.publish("p/t", b"pending", 1)
+        c.publish("p/u", b"pending too", rng_q)
     idx = {"i": -1}            # index of the current script item
     sched = []                 # (due_ms, kind, payload) for the current socket
 
